@@ -37,7 +37,7 @@ func init() {
 }
 
 func runC04(a *A) {
-	r := resolveRoles(a, "C04-R0")
+	r := resolveRolesG(a, "C04-R0", "pt")
 	if r == nil {
 		return
 	}
